@@ -48,6 +48,10 @@ func (s Symbol) ToString() String {
 }
 
 func InspectSymbolContent(name string) string {
+	if len(name) == 0 {
+		// the empty symbol can only be written with quotes
+		return `""`
+	}
 	var quotes bool
 	var result strings.Builder
 	firstLetter := true
